@@ -206,7 +206,7 @@ impl Prop for C13 {
     }
     fn explore(&self, ctx: &Ctx, findings: &Findings, ev: &mut Evidence) -> Result<(), String> {
         let q = ctx.tier == Tier::Quick;
-        let bases = base_requests(!q);
+        let bases = base_requests(true);
         let proved = par_map(&bases, ncpu(), |_, r| {
             with_rln(|rln| {
                 let s = setup_tree(rln, r)?;
